@@ -67,16 +67,65 @@ def rule_ind_flow(ctx: RuleContext, p: Program, rid: str) -> None:
               'there is none', gi.where, note='next(iter(items), None) -> its .indent, else default getter')
     gd = p.func('models.meta_item_internal', '_get_default_indent')
     inst, by, ip = gd.params[0], gd.params[1], gd.params[2]
-    rets = [r for r in walk_no_nested(gd.node) if isinstance(r, ast.Return)]
-    br = [i for i in stmts_no_doc(gd.node.body) if isinstance(i, ast.If)]
-    ok = len(br) == 1 and norm(br[0].test) in (ip, f'{ip} is not None') and len(rets) == 2
-    if ok:
-        with_parent = norm(br[0].body[0].value)  # type: ignore[attr-defined]
-        alone = next((norm(r.value) for r in rets if r is not br[0].body[0]), '')
-        ok = with_parent == f'{ip}.__get__({inst}).value + {by}.__get__({inst})' and alone == f'{by}.__get__({inst})'
-    ctx.check(ok, rid, 'models.meta_item_internal:_get_default_indent', 'parent indent + indent_by',
-              'default indent is not <parent indent> followed by <indent_by> (or indent_by alone without a parent indent)', gd.where,
-              note='indent_property.value + indent_by | indent_by')
+    atoms = {f'{ip}.__get__({inst}).value': ('P',), f'{by}.__get__({inst})': ('B',)}
+
+    def sym(e: ast.AST, env: dict) -> tuple:
+        t = norm(e)
+        if t in atoms:
+            return atoms[t]
+        if isinstance(e, ast.Constant) and e.value == '':
+            return ()
+        if isinstance(e, ast.Name) and e.id in env:
+            return env[e.id]
+        if isinstance(e, ast.BinOp) and isinstance(e.op, ast.Add):
+            return sym(e.left, env) + sym(e.right, env)
+        if isinstance(e, ast.IfExp):
+            return sym(e.body, env) if cond(e.test, env) else sym(e.orelse, env)
+        if isinstance(e, ast.JoinedStr):
+            out: tuple = ()
+            for v in e.values:
+                out += sym(v.value, env) if isinstance(v, ast.FormattedValue) else ((('lit', v.value),) if v.value else ())
+            return out
+        raise AnalysisError(f'IND-FLOW: expression {t[:60]} in _get_default_indent not modelled')
+
+    def cond(t: ast.AST, env: dict) -> bool:
+        tt = norm(t)
+        if tt in (ip, f'{ip} is not None'):
+            return env['__has__']
+        if tt in (f'not {ip}', f'{ip} is None'):
+            return not env['__has__']
+        raise AnalysisError(f'IND-FLOW: condition {tt[:60]} in _get_default_indent not modelled')
+
+    class _Ret(Exception):
+        def __init__(self, v: tuple) -> None:
+            self.v = v
+
+    def run(stmts: list, env: dict) -> None:
+        for st in stmts:
+            if isinstance(st, ast.Return):
+                raise _Ret(sym(st.value, env))
+            if isinstance(st, ast.Assign) and isinstance(st.targets[0], ast.Name):
+                env[st.targets[0].id] = sym(st.value, env)
+            elif isinstance(st, ast.AugAssign) and isinstance(st.op, ast.Add) and isinstance(st.target, ast.Name):
+                env[st.target.id] = env[st.target.id] + sym(st.value, env)
+            elif isinstance(st, ast.If):
+                run(st.body if cond(st.test, env) else st.orelse, env)
+            elif isinstance(st, ast.Expr) and isinstance(st.value, ast.Constant):
+                continue
+            else:
+                raise AnalysisError(f'IND-FLOW: statement {norm(st)[:60]} in _get_default_indent not modelled')
+
+    res = {}
+    for has in (True, False):
+        try:
+            run(gd.node.body, {'__has__': has})
+            res[has] = None
+        except _Ret as r:
+            res[has] = r.v
+    ok = res.get(True) == ('P', 'B') and res.get(False) == ('B',)
+    ctx.check(ok, rid, 'models.meta_item_internal:_get_default_indent', f'with parent indent: {res.get(True)}; without: {res.get(False)}',
+              f'default indent evaluates to {res.get(True)} with a parent indent (P) and {res.get(False)} without; the rule is parent indent '
+              f'followed by indent_by (P, B), or indent_by alone (B)', gd.where, note='(P, B) | (B)')
     # the property wires the getter with its own arguments
     pr = p.cls('repeated_meta_item_property', 'models.meta_item_internal')
     init = p.method(pr, '__init__', inherited=False)
